@@ -683,8 +683,17 @@ def execute(plan, keep_log=False):
                 else:
                     rd = RecordReader(a.path) if (data or a.expected) else None
                 if rd is not None:
+                    # every other stream is consumed in two passes over the same reader object: the consumer stops
+                    # after half of the records (break closes the generator) and comes back for the rest
+                    stop_at = len(a.written_obs) // 2 if (len(plan["ops"]) + len(a.written_obs)) % 2 == 0 else 0
                     for r in rd:
                         got.append(plain_as_flat(r) if a.kind == "json" else obs_record(r))
+                        if stop_at and len(got) == stop_at:
+                            break
+                    if stop_at and len(got) == stop_at:
+                        w.probe("reader-resumed-after-break")
+                        for r in rd:
+                            got.append(plain_as_flat(r) if a.kind == "json" else obs_record(r))
                 want = [_json_norm(x) for x in a.written_obs] if a.kind == "json" else a.written_obs
                 w.log("final", aid, "n=%d" % len(got), "want=%d" % len(want))
                 if got != want:
